@@ -61,6 +61,110 @@ func (r *nodeRig) propertyMonitors(id int, label string, i int, s nStep, o nObs,
 		return false
 	}
 
+	// ---- C04: the validator consulted is the one registered for the request's voucher type
+	// (a restart is decided by the validator of the voucher the channel was opened with)
+	for _, vc := range o.Vals {
+		want := ""
+		if vc.Kind == 2 {
+			if b, ok := before[vc.K]; ok {
+				want = b.OpenType
+			}
+		} else if s.Kind == "mrequest" || s.Kind == "trequest" {
+			want = s.Msg.VType
+		}
+		if want != "" && vc.Typ != "" && vc.Typ != want {
+			fail("C04", "validator-of-another-type-consulted", "the validator that decided the request is not the one registered for the request's voucher type", vc.Typ, want)
+		}
+	}
+
+	// ---- C03 (and C01): a responder that is still finalizing reports itself paused: whatever Complete it sends
+	// (over the network or attached to a transport command) while its channel stays in Finalizing carries the pause flag
+	for k, a := range after {
+		if a.Status != datatransfer.Finalizing || a.SelfInit {
+			continue
+		}
+		unpaused := func(m msgSpec) bool {
+			return !m.IsReq && m.Type == mtComplete && m.Tid == k.Tid && !m.Pause
+		}
+		for _, sm := range o.Sent {
+			if sm.To == a.Other && unpaused(sm.Msg) {
+				fail("C03", "unpaused-complete-while-finalizing", "a responder whose channel stays in Finalizing sent a Complete that is not marked paused: the initiator will take it for the final one")
+				fail("C01", "unpaused-complete-while-finalizing", "a responder whose channel stays in Finalizing sent a Complete that is not marked paused: the initiator can report Completed while the responder has not finished")
+			}
+		}
+		for _, t := range o.Trs {
+			if t.K == k && t.Msg != nil && unpaused(*t.Msg) {
+				fail("C03", "unpaused-complete-while-finalizing", "a responder whose channel stays in Finalizing attached an un-paused Complete to a transport command")
+				fail("C01", "unpaused-complete-while-finalizing", "a responder whose channel stays in Finalizing attached an un-paused Complete to a transport command")
+			}
+		}
+	}
+
+	// ---- C19: the voucher result that comes with a rejection is recorded (once, at the end of the log)
+	if s.Kind == "updatevalidation" && !s.Vr.Accepted && s.Vr.HasRes && o.Ret != 98 && o.Ret != 99 {
+		if b, ok := before[s.K]; ok && !b.SelfInit && !isTerminal(b.Status) && b.Status != datatransfer.Cancelling && b.Status != datatransfer.Failing && b.Status != datatransfer.Completing {
+			if a, ok := after[s.K]; ok {
+				want := coqVoucher(datatransfer.TypeIdentifier(s.Vr.ResType), s.Vr.ResNode)
+				if len(a.Results) != len(b.Results)+1 || a.Results[len(a.Results)-1] != want {
+					fail("C19", "rejection-result-not-recorded", "the voucher result returned with a rejection was not recorded exactly once at the end of the result log", a.Results, append(append([]string(nil), b.Results...), want))
+				}
+			}
+		}
+	}
+
+	// ---- C11: what a responder tells the initiator about its pause state after a validation update is its own
+	// pause state (a responder that stays paused does not announce itself un-paused, and vice versa)
+	if s.Kind == "updatevalidation" && s.Vr.Accepted && !s.Vr.Err {
+		if a, ok := after[s.K]; ok && !a.SelfInit && !isTerminal(a.Status) && a.Status != datatransfer.Cancelling && a.Status != datatransfer.Failing && a.Status != datatransfer.Completing {
+			check := func(m msgSpec) {
+				if !m.IsReq && m.Tid == s.K.Tid && m.Pause != a.RPaused {
+					fail("C11", "announced-pause-state-differs-from-own", "after a validation update the responder's message to the initiator carries a pause flag that is not the responder's own pause state", m.Pause, a.RPaused)
+				}
+			}
+			for _, sm := range o.Sent {
+				if sm.To == a.Other {
+					check(sm.Msg)
+				}
+			}
+			for _, t := range o.Trs {
+				if t.K == s.K && t.Msg != nil {
+					check(*t.Msg)
+				}
+			}
+		}
+	}
+
+	// ---- C08: the outcome of a validation update is announced to the channel's counterparty, nobody else
+	if s.Kind == "updatevalidation" {
+		if b, ok := before[s.K]; ok {
+			for _, sm := range o.Sent {
+				if !sm.Msg.IsReq && sm.Msg.Tid == s.K.Tid && sm.To != b.Other {
+					fail("C08", "validation-outcome-sent-to-wrong-peer", "the response announcing a validation update went to a peer that is not the channel's counterparty", sm.To, b.Other)
+				}
+			}
+		}
+	}
+
+	// ---- C09: a user close cancels the channel's transport request before anything releases the channel's
+	// transport resources (a close that finds the channel already cleaned up cancels nothing)
+	if s.Kind == "close" || s.Kind == "closeerr" {
+		closeAt, cleanupAt := -1, -1
+		for i, t := range o.Trs {
+			if t.K != s.K {
+				continue
+			}
+			if t.Kind == "close" && closeAt < 0 {
+				closeAt = i
+			}
+			if t.Kind == "cleanup" && cleanupAt < 0 {
+				cleanupAt = i
+			}
+		}
+		if closeAt >= 0 && cleanupAt >= 0 && cleanupAt < closeAt {
+			fail("C09", "transport-released-before-close", "closing a channel released its transport resources before the transport request was cancelled: the request keeps running")
+		}
+	}
+
 	// ---- C02: a channel that was terminal before the step is unchanged, nothing is announced for it
 	for k, b := range before {
 		if !isTerminal(b.Status) {
